@@ -8,10 +8,18 @@ CONCEPTS = ['alpha','beta','b','i','"a string"','1','have-mod-91','x-01','"a~b"'
 CONSTS = ['-','5','1.5','"str"','"a b(c)"','sym','+','"~1"','imperative']
 ALN = ['~1','~e.2','~e.3,4','~x5']
 
+def fy(draw, xs):
+    """Fisher-Yates shuffle from integer draws (st.permutations never runs under fuzz_one_input)."""
+    xs = list(xs)
+    for i in range(len(xs) - 1, 0, -1):
+        j = draw(st.integers(0, i))
+        xs[i], xs[j] = xs[j], xs[i]
+    return xs
+
 @st.composite
 def trees(draw, max_nodes=8, aligned=True, inv=True, noconcept=True, attrs=True, missing=True):
     n = draw(st.integers(1, max_nodes))
-    vs = draw(st.permutations(VARS))[:n]
+    vs = fy(draw, VARS)[:n]
     # build random tree shape: parent of node k is random earlier node
     parents = [None] + [draw(st.integers(0, k-1)) for k in range(1, n)]
     children = {k: [] for k in range(n)}
@@ -40,7 +48,7 @@ def trees(draw, max_nodes=8, aligned=True, inv=True, noconcept=True, attrs=True,
         for _ in range(nextra):
             kind = draw(st.sampled_from(['attr','reent','attr','miss'] ))
             items.append((kind, None))
-        items = draw(st.permutations(items))
+        items = fy(draw, items)
         for kind, ch in items:
             if kind == 'child':
                 branches.append((role(True) + aln(), build(ch)))
